@@ -7,6 +7,7 @@
 
 #include <dlfcn.h>
 #include <errno.h>
+#include <fcntl.h>
 #include <linux/futex.h>
 #include <pthread.h>
 #include <signal.h>
@@ -128,7 +129,10 @@ struct Exec {
     std::vector<std::pair<std::string, std::string>>* fails;
     std::string* outcome;
     std::vector<uint64_t>* state_hashes;
-    std::vector<uint64_t>* trace_log;   // per step (tid, state, obj, timeout, alternatives): to name the first differing step of a diverging replay
+    std::vector<uint64_t>* trace_log;
+    std::vector<uint16_t>* script_log;        // every scheduling step (kind<<8|tid; kind 0 run, 1 timeout) and every notify_one waiter choice (kind 2)
+    const std::vector<uint16_t>* script;     // scripted mode (model -> implementation conformance): follow these entries instead of choices
+    size_t script_pos;   // per step (tid, state, obj, timeout, alternatives): to name the first differing step of a diverging replay
 } E;
 
 __thread Th* cur = nullptr;
@@ -266,8 +270,18 @@ void reschedule(Th* self) {
             if (E.delay_bounded) for (int i = 1; i < first_timeout; ++i) costmask |= 1ull << i;   // only "lowest id next" is free
         }
         if (E.state_hashes) E.state_hashes->push_back(sched_state_hash());
-        int c = n == 1 ? 0 : take_choice(n, costmask);
+        int c;
+        if (E.script) {
+            if (E.script_pos >= E.script->size()) fatal("conformance/implementation-continues-after-model-path-ended", "step " + std::to_string(E.script_pos) + ": " + describe_threads());
+            uint16_t e = (*E.script)[E.script_pos];
+            if ((e >> 8) == 3) e = 0;          // 'z': the model path is over, only the main thread (harness tail) may run from here on
+            else ++E.script_pos;
+            c = -1;
+            for (int i = 0; i < n; ++i) if (alts[i].tid == (e & 0xff) && alts[i].timeout == ((e >> 8) == 1)) c = i;
+            if ((e >> 8) > 1 || c < 0) fatal("conformance/model-step-not-enabled-in-implementation", "script step " + std::to_string(E.script_pos - 1) + " wants " + ((e >> 8) == 1 ? "timeout of" : (e >> 8) == 2 ? "waiter choice" : "run") + " T" + std::to_string(e & 0xff) + " but the implementation is at: " + describe_threads());
+        } else c = n == 1 ? 0 : take_choice(n, costmask);
         Alt a = alts[c];
+        if (E.script_log) E.script_log->push_back(static_cast<uint16_t>((a.timeout ? 0x100 : 0) | a.tid));
         Th* t = &E.th[a.tid];
         // The trace identifies a step by (thread, kind of pending operation, timeout?, number of alternatives). The ordinal of the
         // synchronisation object is NOT part of it: ordinals are assigned per address, and when the heap hands the address of a dead
@@ -389,7 +403,15 @@ int pthread_cond_signal(pthread_cond_t* c) {
     if (n == 0) return 0;
     // which waiter notify_one wakes: every one is explored - at no cost under preemption bounding, as a
     // deviation (all but the lowest id) under delay bounding
-    int k = n == 1 ? 0 : take_choice(n, E.delay_bounded ? (((1ull << n) - 1) & ~1ull) : 0);
+    int k;
+    if (E.script && n > 1) {
+        if (E.script_pos >= E.script->size()) fatal("conformance/implementation-continues-after-model-path-ended", "notify_one waiter choice");
+        const uint16_t e = (*E.script)[E.script_pos++];
+        k = -1;
+        for (int i = 0; i < n; ++i) if ((e >> 8) == 2 && w[i] == (e & 0xff)) k = i;
+        if (k < 0) fatal("conformance/model-step-not-enabled-in-implementation", "script wants notify_one to wake T" + std::to_string(e & 0xff) + " (entry kind " + std::to_string(e >> 8) + ") but the waiters are: " + describe_threads());
+    } else k = n == 1 ? 0 : take_choice(n, E.delay_bounded ? (((1ull << n) - 1) & ~1ull) : 0);
+    if (E.script_log && n > 1) E.script_log->push_back(static_cast<uint16_t>(0x200 | w[k]));
     E.trace_hash = mix(E.trace_hash, 0x5151ull ^ (uint64_t(w[k]) << 8));
     wake_cond_waiter(E.th[w[k]]);
     return 0;
@@ -559,11 +581,21 @@ struct RunResult {
     std::vector<std::pair<std::string, std::string>> fails;
     std::string outcome;
     std::vector<uint64_t> state_hashes, trace_log;
+    std::vector<uint16_t> script_log;
     uint64_t trace_hash = 0, transitions = 0, timeouts = 0;
     int npts = 0, cost = 0;
 };
 
 RunResult* g_rr = nullptr;
+bool g_want_script_log = false;
+const std::vector<uint16_t>* g_script = nullptr;
+int g_dump_fd = -1;
+
+std::string script_str(const std::vector<uint16_t>& v) {
+    std::string s;
+    for (uint16_t e : v) { s += (e >> 8) == 0 ? 'r' : (e >> 8) == 1 ? 't' : 's'; s += std::to_string(e & 0xff); s += ' '; }
+    return s;
+}
 
 void run_once(const std::function<void()>& body, const uint8_t* prefix, int prefix_len, const Options& opt, RunResult& rr, bool want_states) {
     E.nth = 1; E.nobj = 0; E.npts = 0; E.total_cost = 0;
@@ -574,6 +606,8 @@ void run_once(const std::function<void()>& body, const uint8_t* prefix, int pref
     E.fails = &rr.fails; E.outcome = &rr.outcome;
     E.state_hashes = want_states ? &rr.state_hashes : nullptr;
     E.trace_log = &rr.trace_log;
+    E.script_log = g_want_script_log ? &rr.script_log : nullptr;
+    E.script = g_script; E.script_pos = 0;
     memset(&E.th[0], 0, sizeof(Th));
     E.th[0].id = 0; E.th[0].st = S_RUNNING; E.th[0].obj = -1; E.th[0].cond = -1;
     g_rr = &rr;
@@ -598,6 +632,7 @@ void run_once(const std::function<void()>& body, const uint8_t* prefix, int pref
     E.active = false;
     cur = nullptr;
     rr.trace_hash = E.trace_hash; rr.transitions = E.transitions; rr.timeouts = E.timeouts; rr.npts = E.npts; rr.cost = E.total_cost;
+    if (E.script && E.script_pos != E.script->size() && !(E.script_pos + 1 == E.script->size() && (E.script->back() >> 8) == 3)) fatal("conformance/model-path-continues-after-implementation-ended", "script has " + std::to_string(E.script->size()) + " entries, the execution consumed " + std::to_string(E.script_pos));
     if (E.prefix_len > E.npts) fatal("harness/replay-divergence", "execution ended after " + std::to_string(E.npts) + " decision points but the prefix has " + std::to_string(E.prefix_len));
 }
 
@@ -627,6 +662,7 @@ uint64_t timeouts_taken() { return E.timeouts; }
 struct Main::Impl {
     bool thorough = false, replay = false;
     std::string replay_cfg; std::vector<uint8_t> replay_choices;
+    std::string dump_path, script_path;
     double deadline_s = 1e9;
     std::chrono::steady_clock::time_point t0 = std::chrono::steady_clock::now();
     std::vector<std::string> rest;
@@ -645,6 +681,8 @@ Main::Main(int argc, char** argv) : m(new Impl) {
         if (s == "--tier") m->thorough = next() == "thorough";
         else if (s == "--deadline") m->deadline_s = atof(next().c_str()) * 0.9;
         else if (s == "--seed" || s == "--shard") next();
+        else if (s == "--dump-traces") { m->dump_path = next(); g_want_script_log = true; g_dump_fd = open(m->dump_path.c_str(), O_WRONLY | O_CREAT | O_APPEND, 0644); }
+        else if (s == "--script") { m->script_path = next(); g_want_script_log = true; }
         else if (s == "--replay") {
             m->replay = true;
             std::string spec = next();
@@ -723,6 +761,7 @@ void worker_loop(const WorkerCtx& w) {
             __sync_fetch_and_add(&SH->replays_checked, 1);   // (the replay left identical points/choices in E)
         }
         g_slot->running = 0;
+        if (g_dump_fd >= 0) { std::string l = w.cfg + "\t" + script_str(rr.script_log) + "\t" + rr.outcome + "\n"; if (write(g_dump_fd, l.data(), l.size()) < 0) {} }
         if (!rr.fails.empty()) report_fails(w.cfg, rr, E.choices, rr.npts);
         if (len == 0 || (local_n == 7 && w.slot == 1))
             emit("SAMPLE\t" + clean(w.cfg + " | bound " + std::to_string(w.bound) + " | choices " + choices_str(E.choices, rr.npts) + " | " + std::to_string(rr.transitions) + " transitions, " + std::to_string(rr.timeouts) + " timeouts | outcome: " + rr.outcome, 500));
@@ -760,6 +799,47 @@ Stats Main::run(const std::string& cfg, const std::function<void()>& body, const
     Stats st;
     if (!wants(cfg)) return st;
     if (opt.min_bound == 0 || m->replay) ++m->configs;
+    if (!m->script_path.empty()) {
+        // model -> implementation conformance: every line "<cfg>\t<script>\t<expected outcome>" of the file whose cfg is this one is
+        // executed on the real code with the scheduler following the script step by step (one forked child per script)
+        if (opt.min_bound != 0) return st;
+        FILE* f = fopen(m->script_path.c_str(), "r");
+        if (!f) { perror("script file"); exit(3); }
+        char* line = nullptr; size_t cap = 0; ssize_t len; uint64_t idx = 0, ok = 0, bad = 0;
+        while ((len = getline(&line, &cap, f)) > 0) {
+            std::string l(line, static_cast<size_t>(len));
+            while (!l.empty() && (l.back() == '\n' || l.back() == '\r')) l.pop_back();
+            size_t t1 = l.find('\t'), t2 = l.find('\t', t1 + 1);
+            if (t1 == std::string::npos || l.substr(0, t1) != cfg) continue;
+            std::string sc = l.substr(t1 + 1, t2 == std::string::npos ? std::string::npos : t2 - t1 - 1), want = t2 == std::string::npos ? "" : l.substr(t2 + 1);
+            std::vector<uint16_t> script;
+            for (size_t p = 0; p < sc.size();) {
+                while (p < sc.size() && sc[p] == ' ') ++p;
+                if (p >= sc.size()) break;
+                const int kind = sc[p] == 'r' ? 0 : sc[p] == 't' ? 1 : sc[p] == 's' ? 2 : 3;
+                script.push_back(static_cast<uint16_t>((kind << 8) | atoi(sc.c_str() + p + 1)));
+                while (p < sc.size() && sc[p] != ' ') ++p;
+            }
+            ++idx;
+            fflush(stdout);
+            pid_t pid = fork();
+            if (pid == 0) {
+                g_script = &script;
+                RunResult rr;
+                run_once(body, nullptr, 0, opt, rr, false);
+                std::string v = "OK";
+                if (!rr.fails.empty()) v = "FAIL oracle: " + rr.fails[0].first + ": " + rr.fails[0].second;
+                else if (!want.empty() && rr.outcome != want) v = "FAIL outcome differs: implementation '" + rr.outcome + "' model '" + want + "'";
+                emit("SCRIPT\t" + cfg + "\t" + std::to_string(idx) + "\t" + clean(v, 600));
+                _exit(v == "OK" ? 0 : 71);
+            }
+            int status = 0; waitpid(pid, &status, 0);
+            if (WIFEXITED(status) && WEXITSTATUS(status) == 0) ++ok; else { ++bad; if (!(WIFEXITED(status) && (WEXITSTATUS(status) == 71 || WEXITSTATUS(status) == 70))) emit("SCRIPT\t" + cfg + "\t" + std::to_string(idx) + "\tFAIL child died, status " + std::to_string(status)); }
+        }
+        free(line); fclose(f);
+        emit("SCRIPTS\t" + cfg + "\t" + std::to_string(ok) + "\t" + std::to_string(bad));
+        return st;
+    }
     if (m->replay) {
         g_replay_print = true;
         RunResult rr;
@@ -839,7 +919,7 @@ Stats Main::run(const std::string& cfg, const std::function<void()>& body, const
 }
 
 int Main::finish() {
-    if (m->replay) return 0;
+    if (m->replay || !m->script_path.empty()) return 0;
     emit("COV\tevaluations\t" + std::to_string(m->total.schedules));
     emit("COV\tdistinct_nontrivial\t" + std::to_string(m->total.deviating));
     emit("COV\tstates\t" + std::to_string(m->total.states));
